@@ -150,6 +150,35 @@ func c09BytesOf(v reflect.Value) (b []byte, ok bool) {
 	return b, true
 }
 
+// c09LayoutEq: same memory layout down to the leaves (names and defined types may differ)
+func c09LayoutEq(a, b reflect.Type, depth int) bool {
+	if a == b {
+		return true
+	}
+	if a.Kind() != b.Kind() || a.Size() != b.Size() || depth > 4 {
+		return false
+	}
+	switch a.Kind() {
+	case reflect.Struct:
+		if a.NumField() != b.NumField() {
+			return false
+		}
+		for i := 0; i < a.NumField(); i++ {
+			if a.Field(i).Offset != b.Field(i).Offset || !c09LayoutEq(a.Field(i).Type, b.Field(i).Type, depth+1) {
+				return false
+			}
+		}
+		return true
+	case reflect.Ptr:
+		return c09LayoutEq(a.Elem(), b.Elem(), depth+1)
+	case reflect.Array:
+		return a.Len() == b.Len() && c09LayoutEq(a.Elem(), b.Elem(), depth+1)
+	case reflect.Map, reflect.Slice, reflect.Func, reflect.Chan, reflect.Interface:
+		return false
+	}
+	return true
+}
+
 func c09SameData(res reflect.Value, val interface{}) int {
 	if val == nil {
 		return -1
@@ -315,6 +344,12 @@ func c09(args []string) int {
 		o := ft.Out(0)
 		tt.id(o)
 		for vi, v := range vals {
+			if c.extra == "nocross" && v != nil && T(v) != o && (o.Kind() == reflect.Ptr || o.Kind() == reflect.Struct) && !c09LayoutEq(T(v), o, 0) {
+				// the stand-in rule is for structs / struct pointers of IDENTICAL layout; anything else that merely has the
+				// same size (a float64 for a *T, a *Big for a *Small, struct{m map} for struct{p *T}) hands the caller forged
+				// memory: outside C09's and C19's domains, and rendering it for the log is a fatal fault, not a panic
+				continue
+			}
 			rec := map[string]interface{}{"kind": "deliver", "target": tg.name, "v": vi, "vty": tt.id(T(v)), "out": tt.id(o), "vnil": v != nil && c09IsNilV(reflect.ValueOf(v))}
 			if v != nil {
 				rec["assignable"] = T(v).AssignableTo(o)
